@@ -50,6 +50,39 @@ func newFlatSys(c *vCtx, metric DistanceKind, dim int, nids int) *vFlatSys {
 	return s
 }
 
+// newFlatNearUnit (cosine): vectors whose LENGTH is within a few 1e-4 of 1 without being 1,
+// next to exact unit vectors, at small angles from the queries: cosine distances of
+// 4.5e-4 and 1e-3 whose order and threshold membership change if a "nearly normalised"
+// vector is taken for a normalised one. Reference distances are computed in float64 from
+// the raw vectors.
+func newFlatNearUnit(c *vCtx, dim int) *vFlatSys {
+	s := &vFlatSys{c: c, metric: Cosine, dim: dim}
+	mk := func(l, theta float64) []float32 {
+		v := make([]float32, dim)
+		v[0] = float32(l * math.Cos(theta))
+		v[1] = float32(l * math.Sin(theta))
+		return v
+	}
+	for _, th := range []float64{0, 0.03, 0.045} {
+		for _, l := range []float64{1, 1.0004, 0.9996} {
+			s.vals = append(s.vals, mk(l, th))
+		}
+	}
+	s.vals = append(s.vals, mk(1.0002, -0.03), mk(2, 0.02))
+	for i := 1; i <= 3; i++ {
+		s.ids = append(s.ids, uint32(i))
+	}
+	s.cfg = fmt.Sprintf("flatnearunit metric=cosine dim=%d ids=3", dim)
+	for _, q := range [][]float32{mk(1, 0), mk(1.0003, 0), mk(0.9997, 0.01), mk(3, 0.03)} {
+		for _, k := range []int{-1, 1, 2} {
+			for _, t := range []float32{0, 2.2e-4, 7.5e-4, 1.5e-3} {
+				s.qs = append(s.qs, vVecQuery{Q: q, K: k, Thr: t})
+			}
+		}
+	}
+	return s
+}
+
 // newFlatDeep: narrow alphabets (2 values, 8 queries) so that deeper histories fit:
 // order of insertion vs id order, several pending removals at one flush, ...
 func newFlatDeep(c *vCtx, metric DistanceKind, nids int) *vFlatSys {
@@ -262,6 +295,10 @@ func init() {
 					}})
 				}
 			}
+			for _, d := range []int{2, 5} {
+				d := d
+				sh = append(sh, vShard{Name: fmt.Sprintf("nearunit/d%d", d), Run: func(c *vCtx) { vBFS(c, newFlatNearUnit(c, d), 3) }})
+			}
 			// observation gaps (zz_verif_obsgap.go): Observe is an operation of the alphabet
 			for _, metric := range []DistanceKind{Euclidean, Cosine} {
 				metric := metric
@@ -336,6 +373,12 @@ func init() {
 				in := newFlatDeep(c, DistanceKind(metric), nids)
 				in.cfg = v.Config
 				vReplayHist(&vObsGapSys{inner: in}, v.History)
+				_, ok := c.viol[v.Sig()]
+				return ok
+			}
+			if strings.HasPrefix(v.Config, "flatnearunit ") {
+				fmt.Sscanf(v.Config, "flatnearunit metric=cosine dim=%d", &dim)
+				vReplayHist(newFlatNearUnit(c, dim), v.History)
 				_, ok := c.viol[v.Sig()]
 				return ok
 			}
